@@ -217,6 +217,54 @@ pub fn run(env: &Env) -> PropRun {
         &make,
         &j,
     ));
+    // origin mode on, regions with a top margin > 0 (needs >= 3 rows; 4 rows to wrap twice
+    // inside a region): all op sequences of length 2 (3 in the thorough tier)
+    struct OBlock {
+        cols: usize,
+        rows: usize,
+        margins: Vec<Option<(usize, usize)>>,
+        ops: Vec<String>,
+        dims: Vec<usize>,
+        total: usize,
+    }
+    let oblocks: Vec<OBlock> = [(2usize, 4usize), (3, 3)]
+        .iter()
+        .map(|&(cols, rows)| {
+            let margins = margin_options(rows);
+            let ops = ops(cols, rows, false);
+            let mut dims = vec![margins.len(), 2, 2, rows, cols + 1];
+            for _ in 0..len {
+                dims.push(ops.len());
+            }
+            let total = product(&dims);
+            OBlock { cols, rows, margins, ops, dims, total }
+        })
+        .collect();
+    let ototal: usize = oblocks.iter().map(|b| b.total).sum();
+    let omake = |mut i: usize| -> Option<Case> {
+        for b in &oblocks {
+            if i < b.total {
+                let d = radix(i, &b.dims)?;
+                // fill first (absolute addressing), then C05's set-up: origin on with full
+                // margins, CUP to the start cell, DECSC, DECSTBM, DECRC (position and origin
+                // mode restored), and a print in the last column for the wrap-pending start
+                let mut s = gen::fill_screen(b.cols, b.rows, false);
+                s.push_str(&super::c05::setup(b.cols, b.rows, b.margins[d[0]], true, d[3], d[4]));
+                s.push_str(CHARSETS[d[1]]);
+                if d[2] == 1 {
+                    s.push_str("\x1b[4h");
+                }
+                let mut case = Case::new(b.cols, b.rows, Some(0)).feed(s);
+                for k in 0..len {
+                    case.calls.push(Call::FeedStr(b.ops[d[5 + k]].clone()));
+                }
+                return Some(case);
+            }
+            i -= b.total;
+        }
+        None
+    };
+    parts.push(run_part(env, "enum-origin-mode", ototal, true, &format!("sizes {{2x4,3x3}} with origin mode on x every margin pair x 2 charset set-ups x insert on/off x every start cell incl. wrap-pending x all op sequences of length {}", len), &omake, &j));
     parts.push(random_part(env, "pending-resize", env.tier.scale(40_000, 30), &gen_pending_resize, &j));
     parts.push(random_part(env, "random-histories", env.tier.scale(60_000, 40), &gen_random, &j));
     PropRun {
